@@ -274,6 +274,7 @@ Record opt_post' (g0 g : graph) (vis : list nat) (n : nat) (g' : graph) (vis' : 
   op_n : In n vis';
   op_outs : forall x, In x vis -> outs_of g' x = outs_of g x;
   op_dec : forall x, is_dec g' x = is_dec g x;
+  op_kind : forall x, is_dec g x = false -> kind_of g' x = kind_of g x;
   op_paths : paths_in g0 g'
 }.
 
@@ -297,60 +298,63 @@ Proof.
   set (g1 := if mw =? n then g else splice g n mw) in *.
   assert (S1 : exists D1, sub D D1 /\ live_inv g1 D1 /\ disj vis1 D1 /\
                 (forall x, In x vis -> outs_of g1 x = outs_of g x) /\
-                (forall x, is_dec g1 x = is_dec g x) /\ paths_in g0 g1).
+                (forall x, is_dec g1 x = is_dec g x) /\ (forall x, is_dec g x = false -> kind_of g1 x = kind_of g x) /\ paths_in g0 g1).
   { unfold g1. destruct (Nat.eqb_spec mw n) as [E|Ne].
     - exists D. split; [apply sub_refl|]. split; [exact L|]. split; [exact Dj1|].
-      split; [intros; reflexivity|]. split; [intros; reflexivity|exact Pg].
+      split; [intros; reflexivity|]. split; [intros; reflexivity|]. split; [intros; reflexivity|exact Pg].
     - assert (NE : ms <> []) by (intros E; apply Ne; unfold mw; rewrite E; reflexivity).
       exists (fun x => D x \/ In x ms). split; [intros x Hx; left; exact Hx|].
       split; [apply splice_live with (vis := vis1); auto|].
       destruct (kind_of g n) as [v|all noop|nm] eqn:Kn; try (unfold is_dec in Dn; rewrite Kn in Dn; discriminate).
       destruct (splice_spec g n mw all noop Kn (is_dec_lt _ _ Dn)) as (Soth & Skn & Son & _).
       assert (Nvis : ~ In n vis) by (apply mem_nIn; exact Mn).
-      split; [|split; [|split]].
+      split; [|split; [|split; [|split]]].
       + intros x Hx Hin. destruct Hin as [Hin|Hin]; [exact (Dj1 x Hx Hin)|].
         pose proof (pchain_unvisited _ _ _ _ P x Hin) as U. apply mem_nIn in U. exact (U Hx).
       + intros x Hx. apply Soth. intros ->. exact (Nvis Hx).
       + intros x. destruct (Nat.eq_dec x n) as [->|Nx].
         * unfold is_dec. rewrite Skn, Kn. reflexivity.
         * unfold is_dec. rewrite (proj1 (Soth x Nx)). reflexivity.
+      + intros x Dx. apply Soth. intros ->. congruence.
       + intros s i t Ht. destruct (Nat.eq_dec s n) as [->|Ns].
         * rewrite Son in Ht.
           assert (R : reach g n mw) by (apply pchain_path with (vis := vis1); [exact P|constructor]).
           eapply reach_trans; [exact (paths_in_reach g0 g n mw Pg R)|]. exact (Pg mw i t Ht).
         * rewrite (proj2 (Soth s Ns)) in Ht. exact (Pg s i t Ht). }
-  destruct S1 as (D1 & I1 & L1 & Dj1' & O1 & K1 & P1).
+  destruct S1 as (D1 & I1 & L1 & Dj1' & O1 & K1 & KK1 & P1).
   (* the loop over the successors *)
   assert (Fold : forall l g2 vis2 (D2 : nat -> Prop) g3 vis3,
     foldM (fun '(g, vis) t => if is_dec g t then opt f g vis t else Ok (g, vis)) l (g2, vis2) = Ok (g3, vis3) ->
     live_inv g2 D2 -> disj vis2 D2 -> In n vis2 -> (forall t, In t l -> In t (outs_of g2 n)) -> paths_in g0 g2 ->
     exists D3, sub D2 D3 /\ live_inv g3 D3 /\ disj vis3 D3 /\ incl vis2 vis3 /\
                (forall x, In x vis2 -> outs_of g3 x = outs_of g2 x) /\ (forall x, is_dec g3 x = is_dec g2 x) /\
-               paths_in g0 g3).
+               (forall x, is_dec g2 x = false -> kind_of g3 x = kind_of g2 x) /\ paths_in g0 g3).
   { induction l as [|t l IHl]; intros g2 vis2 D2 g3 vis3 HF L2 Dj2 N2 Sub P2; cbn [foldM] in HF.
     - inversion HF; subst g3 vis3. exists D2. split; [apply sub_refl|]. split; [exact L2|]. split; [exact Dj2|].
-      split; [apply incl_refl|]. split; [intros; reflexivity|]. split; [intros; reflexivity|exact P2].
+      split; [apply incl_refl|]. split; [intros; reflexivity|]. split; [intros; reflexivity|]. split; [intros; reflexivity|exact P2].
     - assert (Ht : ~ D2 t).
       { destruct (L2 n (Dj2 n N2)) as [_ C]. apply C. apply Sub. left. reflexivity. }
       destruct (is_dec g2 t) eqn:Dt.
       + destruct (opt f g2 vis2 t) as [[g4 vis4]| | |] eqn:Eo; cbn [bind] in HF; try discriminate.
-        destruct (IH _ _ _ _ _ D2 Eo L2 Dj2 Ht Dt P2) as (D4 & I4 & [L4 Dj4 V4 _ O4 K4 P4]).
-        destruct (IHl g4 vis4 D4 g3 vis3 HF L4 Dj4 (V4 n N2)) as (D3 & I3 & L3 & Dj3 & V3 & O3 & K3 & P3); auto.
+        destruct (IH _ _ _ _ _ D2 Eo L2 Dj2 Ht Dt P2) as (D4 & I4 & [L4 Dj4 V4 _ O4 K4 KK4 P4]).
+        destruct (IHl g4 vis4 D4 g3 vis3 HF L4 Dj4 (V4 n N2)) as (D3 & I3 & L3 & Dj3 & V3 & O3 & K3 & KK3 & P3); auto.
         { intros t' Ht'. rewrite (O4 n N2). apply Sub. right. exact Ht'. }
         exists D3. split; [eapply sub_trans; eauto|]. split; [exact L3|]. split; [exact Dj3|].
-        split; [eapply incl_tran; eauto|]. split; [|split; [|exact P3]].
+        split; [eapply incl_tran; eauto|]. split; [|split; [|split; [|exact P3]]].
         * intros x Hx. rewrite (O3 x (V4 x Hx)). apply O4. exact Hx.
         * intros x. rewrite K3. apply K4.
+        * intros x Dx. rewrite KK3 by (rewrite K4; exact Dx). apply KK4. exact Dx.
       + cbn [bind] in HF. apply (IHl g2 vis2 D2 g3 vis3 HF L2 Dj2 N2); auto.
         intros t' Ht'. apply Sub. right. exact Ht'. }
   destruct (Fold (outs_of g1 n) g1 vis1 D1 g' vis' H L1 Dj1' (or_introl eq_refl) (fun t Ht => Ht) P1)
-    as (D3 & I3 & L3 & Dj3 & V3 & O3 & K3 & P3).
+    as (D3 & I3 & L3 & Dj3 & V3 & O3 & K3 & KK3 & P3).
   exists D3. split; [eapply sub_trans; eauto|].
   constructor; auto.
   - intros x Hx. apply V3. right. exact Hx.
   - apply V3. left. reflexivity.
   - intros x Hx. rewrite (O3 x (or_intror Hx)). apply O1. exact Hx.
   - intros x. rewrite K3. apply K1.
+  - intros x Dx. rewrite KK3 by (rewrite K1; exact Dx). apply KK1. exact Dx.
 Qed.
 
 (* ---------- optimize() ---------- *)
@@ -373,15 +377,16 @@ Qed.
 
 Lemma optimize_inv fuel g root g' D0 : live_inv g D0 -> ~ D0 root -> is_dec g root = true ->
   optimize fuel g root = Ok g' ->
-  exists D, live_inv g' D /\ ~ D root /\ paths_in g g'.
+  exists D, live_inv g' D /\ ~ D root /\ paths_in g g' /\
+            (forall x, is_dec g' x = is_dec g x) /\ (forall x, is_dec g x = false -> kind_of g' x = kind_of g x).
 Proof.
   intros L0 H0 Dr H. unfold optimize in H. rewrite Dr in H.
   destruct (opt fuel g [] root) as [[g1 vis1]| | |] eqn:E; cbn [bind] in H; try discriminate.
   inversion H; subst g1.
-  destruct (opt_live g fuel g [] root g' vis1 D0 E L0) as (D & _ & [L Dj _ N _ _ P]); auto.
+  destruct (opt_live g fuel g [] root g' vis1 D0 E L0) as (D & _ & [L Dj _ N _ KD KK P]); auto.
   - intros x [].
   - apply paths_in_refl.
-  - exists D. split; [exact L|]. split; [exact (Dj root N)|exact P].
+  - exists D. split; [exact L|]. split; [exact (Dj root N)|]. split; [exact P|]. split; [exact KD|exact KK].
 Qed.
 
 (* The checks of fences.core.debug.check_consistency hold at every node reachable from the root after
@@ -402,7 +407,7 @@ Theorem optimize_reach_gen fuel g root g' D0 : live_inv g D0 -> ~ D0 root ->
   optimize fuel g root = Ok g' -> forall x, reach g' root x -> reach g root x.
 Proof.
   intros L0 H0 H x R. destruct (is_dec g root) eqn:Dr.
-  - destruct (optimize_inv fuel g root g' D0 L0 H0 Dr H) as (D & _ & _ & P). exact (paths_in_reach g g' root x P R).
+  - destruct (optimize_inv fuel g root g' D0 L0 H0 Dr H) as (D & _ & _ & P & _). exact (paths_in_reach g g' root x P R).
   - unfold optimize in H. rewrite Dr in H. inversion H; subst g'. exact R.
 Qed.
 
@@ -469,6 +474,19 @@ Theorem optimize_count fuel g root g' f1 f2 its its' : consistent g -> optimize 
   items f1 g root = Ok its -> items f2 g' root = Ok its' -> length its' <= length its.
 Proof. intros C. apply optimize_count_gen with (D0 := fun _ => False); [apply consistent_live; exact C|tauto]. Qed.
 
+(* optimize() rewrites decisions only: what is a Reference stays one, and nothing becomes one *)
+Theorem optimize_is_ref fuel g root g' D0 : live_inv g D0 -> ~ D0 root ->
+  optimize fuel g root = Ok g' -> forall x, is_ref g' x = is_ref g x.
+Proof.
+  intros L0 H0 H x. destruct (is_dec g root) eqn:Dr.
+  - destruct (optimize_inv fuel g root g' D0 L0 H0 Dr H) as (D & _ & _ & _ & KD & KK).
+    destruct (is_dec g x) eqn:Dx.
+    + pose proof (KD x) as Dx'. rewrite Dx in Dx'. unfold is_ref, is_dec in *.
+      destruct (kind_of g x); try discriminate. destruct (kind_of g' x); try discriminate. reflexivity.
+    + unfold is_ref. rewrite (KK x Dx). reflexivity.
+  - unfold optimize in H. rewrite Dr in H. inversion H; subst. reflexivity.
+Qed.
+
 (* a table as resolve() leaves it: links truthful except at Reference nodes, none of which is reachable *)
 From Fences Require Import GraphResolve.
 
@@ -500,4 +518,14 @@ Proof.
   intros OO IN NR. apply optimize_count_gen with (D0 := fun x => ~ reach g r x).
   - apply resolved_live; auto.
   - intros H. apply H. constructor.
+Qed.
+
+Theorem optimize_closed_resolved fuel g r g' :
+  outs_ok g -> ins_ok_nr g -> (forall x, reach g r x -> is_ref g x = false) ->
+  optimize fuel g r = Ok g' -> forall x, reach g' r x -> is_ref g' x = false.
+Proof.
+  intros OO IN NR H x R.
+  assert (L : live_inv g (fun x => ~ reach g r x)) by (apply resolved_live; auto).
+  assert (H0 : ~ ~ reach g r r) by (intros X; apply X; constructor).
+  rewrite (optimize_is_ref fuel g r g' _ L H0 H x). apply NR. eapply optimize_reach_gen; eauto.
 Qed.
